@@ -190,4 +190,35 @@ def run(ctx):
             if e.kind == 'assign' and e.lhs[0] == 'field' and e.lhs[1] == var and e.lhs[2] in (pen, staged, value):
                 z[e.lhs[2]] = e.rhs in (('int', 0), ('float', 0.0))
         ctx.check(z == {pen: True, staged: True, value: True}, 'R4', 'disable_var path zeroes the three fields', where(dv), str({k.rsplit('::', 1)[-1]: v_ for k, v_ in z.items()}), key='R4|disable_var|zeroing')
+
+    # ---- R5 the scan of on_disabled_var survives the enabling of the current element -----------------------------------------------------------
+    ctx.rule('R5', 'on_disabled_var: the successor of the scanned element is read from the disabled set before enable_var() can move the element out of it', 1)
+    from ..cfg import abstract_run as _arun
+    odv = P.fn(SYS + '::on_disabled_var')
+
+    def reads_link(e):
+        # the position of an element in disabled_element_set_: iterator_to(*elem) on that set, or the state of its hook
+        if e.kind == 'call' and e.q.endswith('::iterator_to') and e.obj is not None and 'disabled_element_set_' in repr(e.obj):
+            return True
+        if e.kind == 'call' and e.q.endswith('::is_linked') and e.obj is not None and 'disabled_element_set_hook' in repr(e.obj):
+            return True
+        if e.kind == 'branch' and 'disabled_element_set_hook' in repr(e.atom) and 'is_linked' in repr(e.atom):
+            return True
+        return False
+
+    def tr5(st, e):
+        moved, bad = st
+        if e.kind == 'call' and e.q == SYS + '::enable_var':
+            return (e.line, bad)
+        if e.kind == 'assign' and e.lhs[0] == 'var' and e.lhs[2] == 'elem' and not e.decl:
+            return (None, bad)      # the cursor now designates another element
+        if moved and reads_link(e):
+            return (moved, bad or 'the link of the scanned element in disabled_element_set_ is read at line %s after enable_var() (line %s) may have moved it to the enabled set: '
+                                  'the scan then stops and the other staged variables stay staged although there is room' % (e.line, moved))
+        return None
+    ex5 = _arun(A, odv, (None, None), tr5)
+    sts5 = ex5['normal']
+    bad5 = sorted(set(s_[1] for s_ in sts5 if s_[1]))
+    has_enable = any(e.kind == 'call' and e.q == SYS + '::enable_var' for eid in range(len(odv['elems'])) for e in A.view(odv).events_of(eid))
+    ctx.check(bool(sts5) and has_enable and not bad5, 'R5', 'on_disabled_var reads the next element before enabling the current one', where(odv), bad5[0] if bad5 else '', key='R5|on_disabled_var|successor before enable')
     return EXPLANATION
